@@ -86,6 +86,12 @@ def judge(ctx, g, doc, opts, text, out, fails, case):
                                 if html.escape(str(a)) not in lab:
                                     fails.append(Failure("oracle", None, "annotation of %s lacks attribute %s" % (r.identifier, a), case))
                                     break
+                                if isinstance(v, str) and v and not (set(v) & set('\n\r\t"\\\'')) and v == v.strip() \
+                                        and html.escape(v) not in lab:
+                                    # a string is shown with the characters it has (markup characters escaped for the HTML label)
+                                    fails.append(Failure("oracle", None, "annotation of %s does not show %s = %r verbatim" % (
+                                        r.identifier, a, v), case))
+                                    break
                                 if isinstance(v, datetime.datetime) and html.escape(v.isoformat()) not in lab:
                                     # a date-time is shown as its ISO 8601 text: every field, the fraction and the UTC offset
                                     fails.append(Failure("oracle", None, "annotation of %s does not show %s = %s as that date-time" % (
